@@ -8,8 +8,15 @@ Context {T : Type} (ops : numops T) (orc : oracles T) (cf : cfg T).
 
 Definition shape_sconf (sc : sconf T) : Prop :=
   length (sc_min sc) = sc_dof sc /\ length (sc_max sc) = sc_dof sc /\ length (sc_delta sc) = sc_dof sc.
+(* what get_status relies on in mode 50: a loaded spline table comes with a non-empty time list *)
+Definition trk_ok (tk : trk T) : Prop := tk_pt tk = true -> tk_times tk <> [].
 Definition len_inv (sc : sconf T) (sv : servo T) : Prop :=
-  length (sv_coords sv) = sc_dof sc /\ length (sv_cmd sv) = sc_dof sc /\ length (sv_offs sv) = sc_dof sc.
+  length (sv_coords sv) = sc_dof sc /\ length (sv_cmd sv) = sc_dof sc /\ length (sv_offs sv) = sc_dof sc /\
+  trk_ok (sv_trk sv).
+
+(* arithmetic laws of the time checks of _programTrack (binary64 and reals: Proofs/MsvGen.v) *)
+Hypothesis law0 : pt_law ops cf.
+Hypothesis law5 : forall p now, nlt ops p now = false -> nlt ops p (nsub ops now (nofZ ops 5)) = false.
 
 Hypothesis wf : Forall shape_sconf (c_servos cf).
 Hypothesis wf_table :
@@ -33,15 +40,20 @@ Qed.
 
 Lemma get_status_len sc e sv : shape_sconf sc -> len_inv sc sv -> len_inv sc (get_status ops sc e sv).
 Proof.
-  intros (Lmin & Lmax & Ld) (Lc & Lcmd & Lo). unfold get_status.
+  intros (Lmin & Lmax & Ld) (Lc & Lcmd & Lo & Ltk). unfold get_status.
+  assert (Hno : trk_ok (no_trk (T:=T))) by (intros H; discriminate).
   destruct (sv_mode sv =? 50).
-  - destruct ((length (e_spl e) =? sc_dof sc)%nat && negb (sc_dof sc =? 0)%nat) eqn:Hg.
-    + apply andb_true_iff in Hg as [Hg _]. apply Nat.eqb_eq in Hg.
+  - destruct (tk_pt (sv_trk sv)) eqn:Hpt; [|repeat split; cbn; auto].
+    destruct (tk_times (sv_trk sv)) as [|first rest] eqn:Hti; [repeat split; cbn; auto|].
+    assert (Htk' : trk_ok (if nlt ops (last rest first) (e_now e) then no_trk else sv_trk sv))
+      by (destruct (nlt ops _ _); assumption).
+    destruct (nge ops (e_now e) first && (length (e_spl e) =? sc_dof sc)%nat && negb (sc_dof sc =? 0)%nat) eqn:Hg.
+    + apply andb_true_iff in Hg as [Hg _]. apply andb_true_iff in Hg as [_ Hg]. apply Nat.eqb_eq in Hg.
       assert (L : length (move_all ops (nsub ops (e_now e) (sv_last sv)) (sc_delta sc) (sv_coords sv)
                                    (clamp_all ops (sc_min sc) (sc_max sc) (e_spl e))) = sc_dof sc).
       { apply move_all_length; auto. apply clamp_all_length; auto. }
-      repeat split; cbn; auto. destruct (sv_alias sv); auto.
-    + repeat split; cbn; auto.
+      repeat split; cbn [sv_coords sv_cmd sv_offs sv_trk]; auto. destruct (sv_alias sv); auto.
+    + repeat split; cbn [sv_coords sv_cmd sv_offs sv_trk]; auto.
   - destruct ((sv_mode sv =? 20) || (sv_mode sv =? 30)); [repeat split; cbn; auto|].
     destruct (negb _ || negb _); [|repeat split; cbn; auto].
     assert (L : length (move_all ops (nsub ops (e_now e) (sv_last sv)) (sc_delta sc) (sv_coords sv)
@@ -51,8 +63,8 @@ Qed.
 
 Lemma len_inv_same sc (sv sv' : servo T) :
   sv_coords sv' = sv_coords sv -> sv_cmd sv' = sv_cmd sv -> sv_offs sv' = sv_offs sv ->
-  len_inv sc sv -> len_inv sc sv'.
-Proof. unfold len_inv. intros -> -> ->. auto. Qed.
+  sv_trk sv' = sv_trk sv -> len_inv sc sv -> len_inv sc sv'.
+Proof. unfold len_inv. intros -> -> -> ->. auto. Qed.
 
 Lemma wf_nth_shape i sc : nth_error (c_servos cf) i = Some sc -> shape_sconf sc.
 Proof. intros H. eapply Forall_forall in wf; [exact wf|]. eapply nth_error_In; eauto. Qed.
@@ -61,7 +73,7 @@ Lemma init_shape : shape_inv (init_sys ops cf).
 Proof.
   unfold shape_inv, init_sys. cbn [s_servos]. clear wf wf_table.
   induction (c_servos cf) as [|sc l IH]; cbn; constructor; auto.
-  unfold len_inv, init_servo. cbn. rewrite repeat_length. auto.
+  unfold len_inv, init_servo. cbn. rewrite repeat_length. repeat split; auto. intros H; discriminate.
 Qed.
 
 Lemma set_servo_shape s i sc sv' : shape_inv s -> nth_error (c_servos cf) i = Some sc ->
@@ -86,17 +98,36 @@ Proof.
 Qed.
 
 Lemma refresh_all_shape e : forall scs svs spls,
-  Forall shape_sconf scs -> Forall2 len_inv scs svs -> Forall2 len_inv scs (refresh_all ops e scs svs spls).
+  Forall shape_sconf scs -> Forall2 len_inv scs svs ->
+  Forall2 len_inv scs (fst (refresh_all ops e scs svs spls)) /\ snd (refresh_all ops e scs svs spls) = false.
 Proof.
   intros scs svs spls Hwf H. revert spls.
-  induction H as [|sc sv scs svs H0 H IH]; intros spls; cbn; [constructor|].
-  inversion Hwf as [|? ? Hsc Hscs]; subst. constructor.
-  - apply get_status_len; auto.
-  - apply IH. exact Hscs.
+  induction H as [|sc sv scs svs H0 H IH]; intros spls; cbn [refresh_all]; [split; [constructor|reflexivity]|].
+  inversion Hwf as [|? ? Hsc Hscs]; subst.
+  assert (Hr : gs_raises sv = false).
+  { unfold gs_raises. destruct H0 as (_ & _ & _ & Htk). destruct (tk_pt (sv_trk sv)) eqn:Hpt.
+    - destruct (tk_times (sv_trk sv)) eqn:Hti; [exfalso; apply (Htk Hpt); exact Hti|].
+      rewrite andb_false_r. reflexivity.
+    - rewrite andb_false_r. reflexivity. }
+  rewrite Hr. destruct (IH Hscs (tl spls)) as [IH1 IH2].
+  destruct (refresh_all ops e scs svs (tl spls)) as [r x]. cbn [fst snd] in *. split; [|exact IH2].
+  constructor; [apply get_status_len; auto|exact IH1].
 Qed.
 
-Lemma refresh_shape e spls s : shape_inv s -> shape_inv (refresh ops cf e spls s).
-Proof. intros H. unfold shape_inv, refresh. cbn [s_servos]. apply refresh_all_shape; auto. Qed.
+Lemma refresh_shape e spls s : shape_inv s -> shape_inv (fst (refresh ops cf e spls s)).
+Proof.
+  intros H. unfold shape_inv, refresh.
+  destruct (refresh_all_shape e (c_servos cf) (s_servos s) spls wf H) as [G _].
+  destruct (refresh_all ops e (c_servos cf) (s_servos s) spls). exact G.
+Qed.
+
+(* the update thread never raises in a state with the invariant *)
+Theorem refresh_no_raise e spls s : shape_inv s -> snd (refresh ops cf e spls s) = false.
+Proof.
+  intros H. unfold refresh.
+  destruct (refresh_all_shape e (c_servos cf) (s_servos s) spls wf H) as [_ G].
+  destruct (refresh_all ops e (c_servos cf) (s_servos s) spls). exact G.
+Qed.
 
 Lemma setup_loop_shape : forall scs rows svs svs',
   Forall2 (fun sc row => length row = sc_dof sc) scs rows -> Forall2 len_inv scs svs ->
@@ -110,7 +141,7 @@ Proof.
     destruct (set_coords ops sc (cancel_set_mode sv 0) row 10 false) as [sv1 [r|]] eqn:Es; [|discriminate].
     destruct (setup_loop ops scs rows0 svs0) as [tl|] eqn:Et; [|discriminate].
     cbn in E. injection E as <-. constructor; [|eapply IH; eauto].
-    destruct H0 as (Lc & Lcmd & Lo).
+    destruct H0 as (Lc & Lcmd & Lo & Ltk).
     unfold set_coords in Es. cbn [cancel_set_mode sv_cmd sv_offs] in Es.
     destruct (sc_loop ops false sc (sv_cmd sv) (sv_offs sv) 0 row) as [l| |] eqn:El;
       injection Es as <- _; repeat split; cbn; auto.
@@ -127,6 +158,64 @@ Proof.
     cbn. f_equal. eauto.
 Qed.
 
+Lemma bisect_last (p x : T) : nlt ops p x = false ->
+  forall l, (bisect_left ops (l ++ [p]) x <= length l)%nat.
+Proof.
+  intros Hp. induction l as [|a l IH]; cbn.
+  - rewrite Hp. lia.
+  - destruct (nlt ops a x); lia.
+Qed.
+
+Lemma skipn_app_nonempty {A} (l : list A) p k : (k <= length l)%nat -> skipn k (l ++ [p]) <> [].
+Proof.
+  revert k. induction l as [|a l IH]; intros [|k] H; cbn in *; try discriminate; try lia.
+  apply IH. lia.
+Qed.
+
+Lemma pt_finish_times e start tk1 pid :
+  match pt_finish ops cf e start tk1 pid with
+  | PtBad _ => True
+  | PtGood tk' | PtExc tk' => tk_times tk' <> []
+  end.
+Proof.
+  unfold pt_finish. destruct (nlt ops _ (e_now e)) eqn:Hp; [exact I|].
+  apply law5 in Hp.
+  set (times1 := match tk_times tk1 with [t0] => _ | l => l end).
+  assert (Hne : skipn (bisect_left ops (times1 ++ [nadd ops start (nmul ops (nofZ ops pid) (c_gap cf))])
+                                   (nsub ops (e_now e) (nofZ ops 5)))
+                      (times1 ++ [nadd ops start (nmul ops (nofZ ops pid) (c_gap cf))]) <> []).
+  { apply skipn_app_nonempty. apply bisect_last. exact Hp. }
+  destruct (_ <? _)%nat; [destruct (e_pt_ok e)|]; cbn [tk_times]; exact Hne.
+Qed.
+
+(* whatever _programTrack answers, the bookkeeping it leaves behind keeps the invariant *)
+Lemma pt_book_ok e tk tid pid st : trk_ok tk ->
+  match pt_book ops orc cf e tk tid pid st with PtBad tk' | PtGood tk' | PtExc tk' => trk_ok tk' end.
+Proof.
+  intros Hok. pose proof (pt_book_bad ops orc cf e tk tid pid st) as Hbad.
+  destruct (pt_book ops orc cf e tk tid pid st) as [tk'|tk'|tk'] eqn:Hb.
+  - rewrite (Hbad tk' law0 eq_refl). exact Hok.
+  - revert Hb. unfold pt_book.
+    destruct (pt_stage1 ops orc e tk tid pid st) as [r|[[start|] tk1]] eqn:H1.
+    + revert H1. unfold pt_stage1.
+      repeat match goal with |- context [if ?c then _ else _] => destruct c
+                        | |- context [match ?x with _ => _ end] => destruct x end;
+        intros H1; try discriminate; injection H1 as <-; discriminate.
+    + intros Hf. pose proof (pt_finish_times e start tk1 pid) as Ht. rewrite Hf in Ht. intros _. exact Ht.
+    + discriminate.
+  - revert Hb. unfold pt_book.
+    destruct (pt_stage1 ops orc e tk tid pid st) as [r|[[start|] tk1]] eqn:H1.
+    + revert H1. unfold pt_stage1.
+      repeat match goal with |- context [if ?c then _ else _] => destruct c
+                        | |- context [match ?x with _ => _ end] => destruct x end;
+        intros H1; try discriminate; injection H1 as <-; intros H2; try discriminate; injection H2 as <-; exact Hok.
+    + intros Hf. pose proof (pt_finish_times e start tk1 pid) as Ht. rewrite Hf in Ht. intros _. exact Ht.
+    + revert H1. unfold pt_stage1.
+      repeat match goal with |- context [if ?c then _ else _] => destruct c
+                        | |- context [match ?x with _ => _ end] => destruct x eqn:? end;
+        intros H1; try discriminate; injection H1 as ? <-; intros H2; injection H2 as <-; exact Hok.
+Qed.
+
 Ltac inv_same := match goal with
   | H : (_, _) = (_, _) |- _ => injection H as <- _; try assumption
   end.
@@ -136,8 +225,11 @@ Proof.
   intros Hs. unfold h_status, bad. destruct args as [|sid [|b l]]; intros H; try inv_same.
   destruct (find_servo sid 0 (c_servos cf)) as [[i sc]|] eqn:Hf; try inv_same.
   destruct (nth_error (s_servos s) i) as [sv|] eqn:Hsv; try inv_same.
-  apply find_servo_nth0 in Hf. eapply set_servo_shape; eauto.
-  apply get_status_len; [eapply wf_nth_shape; eauto|]. eapply Forall2_nth; eauto.
+  apply find_servo_nth0 in Hf.
+  assert (Hg : shape_inv (set_servo s i (get_status ops sc e sv))).
+  { eapply set_servo_shape; eauto.
+    apply get_status_len; [eapply wf_nth_shape; eauto|]. eapply Forall2_nth; eauto. }
+  destruct (gs_raises sv); injection H as <- _; exact Hg.
 Qed.
 
 Lemma h_setup_shape s e args s' r : shape_inv s -> h_setup ops cf s e args = (s', r) -> shape_inv s'.
@@ -156,7 +248,7 @@ Proof.
   destruct (nth_error (s_servos s) i) as [sv|] eqn:Hsv; try inv_same.
   apply find_servo_nth0 in Hf. eapply shape_servos with (s := set_servo s i (cancel_set_mode sv 30));
     [reflexivity|].
-  eapply set_servo_shape; eauto. eapply len_inv_same with (sv := sv); [reflexivity|reflexivity|reflexivity|].
+  eapply set_servo_shape; eauto. eapply len_inv_same with (sv := sv); [reflexivity|reflexivity|reflexivity|reflexivity|].
   eapply Forall2_nth; eauto.
 Qed.
 
@@ -170,7 +262,7 @@ Proof.
     apply find_servo_nth0 in Hf.
     match goal with |- shape_inv (set_last (set_servo s i ?x) _) =>
       eapply shape_servos with (s := set_servo s i x); [reflexivity|] end.
-    eapply set_servo_shape; eauto. eapply len_inv_same with (sv := sv); [reflexivity|reflexivity|reflexivity|].
+    eapply set_servo_shape; eauto. eapply len_inv_same with (sv := sv); [reflexivity|reflexivity|reflexivity|reflexivity|].
     eapply Forall2_nth; eauto.
   - destruct (zlist_eqb sid gcap_name); try inv_same.
     destruct (pyint orc pos) as [p|]; try inv_same.
@@ -192,7 +284,7 @@ Proof.
     [|unfold h_preset; rewrite Hf, Hlen; cbn [negb]; rewrite Hfl, Hsv; intros H; inv_same].
   apply Nat.eqb_eq in Hlen.
   rewrite (h_preset_cases ops orc cf s e sid (t0 :: toks) i sc xs sv); auto; [|discriminate].
-  apply find_servo_nth0 in Hf. pose proof (Forall2_nth _ _ _ _ _ _ Hs Hf Hsv) as (Lc & Lcmd & Lo).
+  apply find_servo_nth0 in Hf. pose proof (Forall2_nth _ _ _ _ _ _ Hs Hf Hsv) as (Lc & Lcmd & Lo & Ltk).
   destruct (sc_loop ops true sc (sv_cmd sv) (sv_offs sv) 0 (map Some xs)) as [l| |] eqn:El;
     intros H; try inv_same.
   eapply shape_servos with (s := set_servo s i (preset_servo sv l)); [reflexivity|].
@@ -212,7 +304,7 @@ Proof.
   apply find_servo_nth0 in Hf.
   match goal with |- shape_inv (set_last (set_servo s i ?x) _) =>
     eapply shape_servos with (s := set_servo s i x); [reflexivity|] end.
-  eapply set_servo_shape; eauto. pose proof (Forall2_nth _ _ _ _ _ _ Hs Hf Hsv) as (Lc & Lcmd & Lo).
+  eapply set_servo_shape; eauto. pose proof (Forall2_nth _ _ _ _ _ _ Hs Hf Hsv) as (Lc & Lcmd & Lo & Ltk).
   repeat split; cbn; auto. rewrite (set_offsets_length _ _ _ Ho). exact Lo.
 Qed.
 
@@ -227,12 +319,11 @@ Proof.
   destruct (nth_error (s_servos s) i) as [sv|] eqn:Hsv; try inv_same.
   destruct (pyint orc tid); [|inv_same]. destruct (pyint orc pid); [|inv_same].
   destruct (pt_coords ops orc toks (sv_offs sv)) as [[l|]|]; try inv_same.
-  destruct (e_pt_ok e); try inv_same.
-  apply find_servo_nth0 in Hf.
-  match goal with |- shape_inv (set_last (set_servo s i ?x) _) =>
-    eapply shape_servos with (s := set_servo s i x); [reflexivity|] end.
-  eapply set_servo_shape; eauto. eapply len_inv_same with (sv := sv); [reflexivity|reflexivity|reflexivity|].
-  eapply Forall2_nth; eauto.
+  apply find_servo_nth0 in Hf. pose proof (Forall2_nth _ _ _ _ _ _ Hs Hf Hsv) as (Lc & Lcmd & Lo & Ltk).
+  assert (Hk : forall m tk, trk_ok tk -> shape_inv (set_servo s i (set_trk sv m tk))).
+  { intros m tk Htk. eapply set_servo_shape; eauto. repeat split; cbn; auto. }
+  pose proof (pt_book_ok e (sv_trk sv) z z0 st Ltk) as Hb.
+  destruct (pt_book ops orc cf e (sv_trk sv) z z0 st) as [tk|tk|tk]; injection H as <- _; apply Hk; exact Hb.
 Qed.
 
 Lemma dispatch_shape h f s e args s' r : shape_inv s ->
@@ -339,7 +430,13 @@ Theorem status_servo_answered s e sid i sc :
 Proof.
   intros Hs Hf Hl. unfold h_status. rewrite Hf. pose proof (find_servo_nth0 _ _ _ _ Hf) as Hn.
   destruct (Forall2_nth_ex _ _ _ _ _ Hs Hn) as (sv & Hsv & Hlen). rewrite Hsv.
-  pose proof (get_status_len sc e sv (wf_nth_shape _ _ Hn) Hlen) as (L1 & _ & L3).
+  assert (Hr : gs_raises sv = false).
+  { unfold gs_raises. destruct Hlen as (_ & _ & _ & Htk). destruct (tk_pt (sv_trk sv)) eqn:Hpt.
+    - destruct (tk_times (sv_trk sv)) eqn:Hti; [exfalso; apply (Htk Hpt); exact Hti|].
+      rewrite andb_false_r. reflexivity.
+    - rewrite andb_false_r. reflexivity. }
+  rewrite Hr.
+  pose proof (get_status_len sc e sv (wf_nth_shape _ _ Hn) Hlen) as (L1 & _ & L3 & _).
   destruct (render_servo_ok (sc_layout sc) (sv_mode sv) (get_status ops sc e sv) (e_draws e) (sc_dof sc) Hl L1 L3)
     as [body ->].
   eexists _, body. split; [reflexivity|]. split; [|reflexivity].
